@@ -22,14 +22,14 @@ type memAddr struct{}
 func (memAddr) Network() string { return "mem" }
 func (memAddr) String() string  { return "mem" }
 
-func (m *memConn) Read(p []byte) (int, error)         { return m.In.Read(p) }
-func (m *memConn) Write(p []byte) (int, error)        { return m.Out.Write(p) }
-func (m *memConn) Close() error                       { return nil }
-func (m *memConn) LocalAddr() net.Addr                { return memAddr{} }
-func (m *memConn) RemoteAddr() net.Addr               { return memAddr{} }
-func (m *memConn) SetDeadline(time.Time) error        { return nil }
-func (m *memConn) SetReadDeadline(time.Time) error    { return nil }
-func (m *memConn) SetWriteDeadline(time.Time) error   { return nil }
+func (m *memConn) Read(p []byte) (int, error)       { return m.In.Read(p) }
+func (m *memConn) Write(p []byte) (int, error)      { return m.Out.Write(p) }
+func (m *memConn) Close() error                     { return nil }
+func (m *memConn) LocalAddr() net.Addr              { return memAddr{} }
+func (m *memConn) RemoteAddr() net.Addr             { return memAddr{} }
+func (m *memConn) SetDeadline(time.Time) error      { return nil }
+func (m *memConn) SetReadDeadline(time.Time) error  { return nil }
+func (m *memConn) SetWriteDeadline(time.Time) error { return nil }
 
 var quietLogger = hclog.New(&hclog.LoggerOptions{Level: hclog.Off, Output: io.Discard})
 var debugLogger = hclog.New(&hclog.LoggerOptions{Level: hclog.Debug, Output: io.Discard})
